@@ -9,6 +9,9 @@
   `unreachable!()`) is shown unreachable by the equalities below (the result is `.ok …`).
 -/
 import NB.Lemmas.Gcd
+import NB.Lemmas.GcdD
+import NB.Model.AsmParams
+import NB.Drv.C13
 namespace NB
 open NB.Gcd NB.IntVal
 
@@ -246,5 +249,272 @@ example : extendedGcd 240 (-46) = .ok (2, -9, -47) := by decide
 example : (240 : Int) * (-9) + (-46) * (-47) = 2 := by decide
 example : bigintNextMultipleOf 23 (-8) = .ok 16 := by decide
 example : bigintModFloor (-7) 3 = .ok 2 := by decide
+
+/-! ## Digit-level layer (NB.Model.GcdD; this is what the driver's model column runs)
+
+  `GcdD.*` mirrors the Rust functions on digit vectors / BigInt records with the digit-level operator
+  models (`trailingZerosU`, `biguintShr/Shl`, `cmpSlice`, `subAssign`, `divRef`, `mulRef`, `remRef`,
+  `modFloor`, `subRefVal`, `addAssign`, `addAssignU32/subAssignU32`, `BigInt.div/sub/add/modFloor/addU/subU`,
+  `bigintMul`, `Core.BigInt.cmp`) and propagates their panics.  The `…D_refines` theorems say that on
+  canonical inputs it computes exactly what the value-level model computes on the values (outcome
+  for outcome, including every panic), so the specifications above transfer (`…D_spec`).
+
+  Hypotheses that are not "operands canonical":
+  * `GcdD.Small a` (`a.length < usize range`, true of every `Vec`): only where `>>`/`<<` are used
+    (the gcd family), because `biguint_shr` saturates and `biguint_shl` panics beyond `usize::MAX` digits;
+  * `P.ValidMul` (obligation `gen_params_valid_mul`, C02): only where a `*` is used. -/
+
+/-- trailing zeros on the digits = the 2-adic valuation used by the value-level model -/
+theorem twosD_spec (a : List Nat) (ha : Canon a) : GcdD.twos a = twos (val a) := GcdD.twos_eq ha.1
+
+/-- the digit-level Stein loop refines the value-level loop step for step, for every fuel -/
+theorem steinLoopD_refines (P : Params) (fuel : Nat) (m n : List Nat) (hm : Canon m) (hn : Canon n)
+    (hsm : GcdD.Small m) (hsn : GcdD.Small n) :
+    GcdD.steinLoop P fuel m n = (steinLoop fuel (val m) (val n)).map ofNat := by
+  obtain ⟨x, rfl⟩ : ∃ x, m = ofNat x := ⟨_, canon_eq_ofNat hm⟩
+  obtain ⟨y, rfl⟩ : ∃ y, n = ofNat y := ⟨_, canon_eq_ofNat hn⟩
+  simp only [ofNat_val]
+  exact GcdD.steinLoop_refines P fuel x y hsm hsn
+
+theorem gcdD_refines (P : Params) (a b : List Nat) (ha : Canon a) (hb : Canon b)
+    (hsa : GcdD.Small a) (hsb : GcdD.Small b) :
+    GcdD.gcd P a b = (gcd (val a) (val b)).map ofNat := GcdD.gcd_refines P a b ha hb hsa hsb
+
+/-- digit-level `BigUint::gcd`: the canonical digits of `Nat.gcd`; no operator panics, the loop terminates -/
+theorem gcdD_spec (P : Params) (a b : List Nat) (ha : Canon a) (hb : Canon b)
+    (hsa : GcdD.Small a) (hsb : GcdD.Small b) :
+    GcdD.gcd P a b = .ok (ofNat (Nat.gcd (val a) (val b))) := by
+  rw [gcdD_refines P a b ha hb hsa hsb, gcd_ok]; rfl
+
+theorem lcmD_refines (P : Params) (hP : P.ValidMul) (a b : List Nat) (ha : Canon a) (hb : Canon b)
+    (hsa : GcdD.Small a) (hsb : GcdD.Small b) :
+    GcdD.lcm P a b = (lcm (val a) (val b)).map ofNat := by
+  obtain ⟨x, rfl⟩ : ∃ x, a = ofNat x := ⟨_, canon_eq_ofNat ha⟩
+  obtain ⟨y, rfl⟩ : ∃ y, b = ofNat y := ⟨_, canon_eq_ofNat hb⟩
+  simp only [ofNat_val]
+  exact GcdD.lcm_ofNat P hP x y hsa hsb
+
+/-- digit-level `BigUint::lcm`: the canonical digits of `Nat.lcm` -/
+theorem lcmD_spec (P : Params) (hP : P.ValidMul) (a b : List Nat) (ha : Canon a) (hb : Canon b)
+    (hsa : GcdD.Small a) (hsb : GcdD.Small b) :
+    GcdD.lcm P a b = .ok (ofNat (Nat.lcm (val a) (val b))) := by
+  rw [lcmD_refines P hP a b ha hb hsa hsb, lcm_ok]; rfl
+
+theorem gcdLcmD_spec (P : Params) (hP : P.ValidMul) (a b : List Nat) (ha : Canon a) (hb : Canon b)
+    (hsa : GcdD.Small a) (hsb : GcdD.Small b) :
+    GcdD.gcdLcm P a b = .ok (ofNat (Nat.gcd (val a) (val b)), ofNat (Nat.lcm (val a) (val b))) := by
+  obtain ⟨x, rfl⟩ : ∃ x, a = ofNat x := ⟨_, canon_eq_ofNat ha⟩
+  obtain ⟨y, rfl⟩ : ∃ y, b = ofNat y := ⟨_, canon_eq_ofNat hb⟩
+  simp only [ofNat_val]
+  rw [GcdD.gcdLcm_ofNat P hP x y hsa hsb, gcdLcm_ok]; rfl
+
+/-- digit-level `is_multiple_of` (through `%` with its `to_u32` fast path) is divisibility -/
+theorem is_multiple_ofD_spec (P : Params) (a b : List Nat) (ha : Canon a) (hb : Canon b) :
+    GcdD.isMultipleOf P a b = .ok (decide (val b ∣ val a)) := by
+  obtain ⟨x, rfl⟩ : ∃ x, a = ofNat x := ⟨_, canon_eq_ofNat ha⟩
+  obtain ⟨y, rfl⟩ : ∃ y, b = ofNat y := ⟨_, canon_eq_ofNat hb⟩
+  simp only [ofNat_val]
+  rw [GcdD.isMultipleOf_ofNat, isMultipleOf_ok]
+
+theorem next_multipleD_refines (P : Params) (a b : List Nat) (ha : Canon a) (hb : Canon b) :
+    GcdD.nextMultipleOf P a b = (nextMultipleOf (val a) (val b)).map ofNat := by
+  obtain ⟨x, rfl⟩ : ∃ x, a = ofNat x := ⟨_, canon_eq_ofNat ha⟩
+  obtain ⟨y, rfl⟩ : ∃ y, b = ofNat y := ⟨_, canon_eq_ofNat hb⟩
+  simp only [ofNat_val]
+  exact GcdD.nextMultipleOf_ofNat P x y
+
+/-- digit-level `next_multiple_of`: division-by-zero panic iff `b = 0`, else the least multiple `≥ a` -/
+theorem next_multipleD_spec (P : Params) (a b : List Nat) (ha : Canon a) (hb : Canon b) :
+    GcdD.nextMultipleOf P a b =
+      if val b = 0 then .error .divzero else .ok (ofNat ((val a + val b - 1) / val b * val b)) := by
+  rw [next_multipleD_refines P a b ha hb, next_multiple_spec]
+  split <;> rfl
+
+theorem prev_multipleD_refines (P : Params) (a b : List Nat) (ha : Canon a) (hb : Canon b) :
+    GcdD.prevMultipleOf P a b = (prevMultipleOf (val a) (val b)).map ofNat := by
+  obtain ⟨x, rfl⟩ : ∃ x, a = ofNat x := ⟨_, canon_eq_ofNat ha⟩
+  obtain ⟨y, rfl⟩ : ∃ y, b = ofNat y := ⟨_, canon_eq_ofNat hb⟩
+  simp only [ofNat_val]
+  exact GcdD.prevMultipleOf_ofNat P x y
+
+theorem prev_multipleD_spec (P : Params) (a b : List Nat) (ha : Canon a) (hb : Canon b) :
+    GcdD.prevMultipleOf P a b =
+      if val b = 0 then .error .divzero else .ok (ofNat (val a / val b * val b)) := by
+  rw [prev_multipleD_refines P a b ha hb, prev_multiple_spec]
+  split <;> rfl
+
+theorem incD_spec (P : Params) (a : List Nat) (ha : Canon a) : GcdD.inc P a = .ok (ofNat (val a + 1)) := by
+  obtain ⟨x, rfl⟩ : ∃ x, a = ofNat x := ⟨_, canon_eq_ofNat ha⟩
+  simp only [ofNat_val]
+  rw [GcdD.inc_ofNat]; rfl
+
+theorem decD_spec (P : Params) (a : List Nat) (ha : Canon a) :
+    GcdD.dec P a = if val a = 0 then .error .underflow else .ok (ofNat (val a - 1)) := by
+  obtain ⟨x, rfl⟩ : ∃ x, a = ofNat x := ⟨_, canon_eq_ofNat ha⟩
+  simp only [ofNat_val]
+  rw [GcdD.dec_ofNat, dec_spec]
+  split <;> rfl
+
+/-! ### digit-level BigInt -/
+
+theorem bigint_gcdD_spec (P : Params) (a b : BigInt) (ha : a.Canon) (hb : b.Canon)
+    (hsa : GcdD.Small a.mag) (hsb : GcdD.Small b.mag) :
+    GcdD.bigintGcd P a b = .ok (BigInt.ofInt (Int.gcd a.val b.val : Int)) := by
+  obtain ⟨i, rfl⟩ : ∃ i, a = BigInt.ofInt i := ⟨_, bigint_canon_eq_ofInt ha⟩
+  obtain ⟨j, rfl⟩ : ∃ j, b = BigInt.ofInt j := ⟨_, bigint_canon_eq_ofInt hb⟩
+  rw [ofInt_mag] at hsa hsb
+  simp only [bigint_ofInt_val]
+  rw [GcdD.bigintGcd_ofInt P i j hsa hsb, bigint_gcd_spec]; rfl
+
+theorem bigint_lcmD_spec (P : Params) (hP : P.ValidMul) (a b : BigInt) (ha : a.Canon) (hb : b.Canon)
+    (hsa : GcdD.Small a.mag) (hsb : GcdD.Small b.mag) :
+    GcdD.bigintLcm P a b = .ok (BigInt.ofInt (Int.lcm a.val b.val : Int)) := by
+  obtain ⟨i, rfl⟩ : ∃ i, a = BigInt.ofInt i := ⟨_, bigint_canon_eq_ofInt ha⟩
+  obtain ⟨j, rfl⟩ : ∃ j, b = BigInt.ofInt j := ⟨_, bigint_canon_eq_ofInt hb⟩
+  rw [ofInt_mag] at hsa hsb
+  simp only [bigint_ofInt_val]
+  rw [GcdD.bigintLcm_ofInt P hP i j hsa hsb, bigint_lcm_spec]; rfl
+
+theorem bigint_gcd_lcmD_spec (P : Params) (hP : P.ValidMul) (a b : BigInt) (ha : a.Canon) (hb : b.Canon)
+    (hsa : GcdD.Small a.mag) (hsb : GcdD.Small b.mag) :
+    GcdD.bigintGcdLcm P a b =
+      .ok (BigInt.ofInt (Int.gcd a.val b.val : Int), BigInt.ofInt (Int.lcm a.val b.val : Int)) := by
+  obtain ⟨i, rfl⟩ : ∃ i, a = BigInt.ofInt i := ⟨_, bigint_canon_eq_ofInt ha⟩
+  obtain ⟨j, rfl⟩ : ∃ j, b = BigInt.ofInt j := ⟨_, bigint_canon_eq_ofInt hb⟩
+  rw [ofInt_mag] at hsa hsb
+  simp only [bigint_ofInt_val]
+  rw [GcdD.bigintGcdLcm_ofInt P hP i j hsa hsb, bigint_gcd_lcm_spec]; rfl
+
+/-- the digit-level Euclid loop (BigInt `/ * -` through `BigInt.div`, `bigintMul`, `BigInt.sub`) refines
+    the value-level loop for every fuel and every state -/
+theorem egcdLoopD_refines (P : Params) (hP : P.ValidMul) (fuel : Nat) (s0 s1 t0 t1 r0 r1 : BigInt)
+    (h1 : s0.Canon) (h2 : s1.Canon) (h3 : t0.Canon) (h4 : t1.Canon) (h5 : r0.Canon) (h6 : r1.Canon) :
+    GcdD.egcdLoop P fuel s0 s1 t0 t1 r0 r1 =
+      (egcdLoop fuel s0.val s1.val t0.val t1.val r0.val r1.val).map GcdD.ofInt3 := by
+  have e := GcdD.egcdLoop_refines P hP fuel s0.val s1.val t0.val t1.val r0.val r1.val
+  rwa [← bigint_canon_eq_ofInt h1, ← bigint_canon_eq_ofInt h2, ← bigint_canon_eq_ofInt h3,
+    ← bigint_canon_eq_ofInt h4, ← bigint_canon_eq_ofInt h5, ← bigint_canon_eq_ofInt h6] at e
+
+theorem egcdD_refines (P : Params) (hP : P.ValidMul) (a b : BigInt) (ha : a.Canon) (hb : b.Canon) :
+    GcdD.extendedGcd P a b = (extendedGcd a.val b.val).map GcdD.ofInt3 := by
+  have e := GcdD.extendedGcd_ofInt P hP a.val b.val
+  rwa [← bigint_canon_eq_ofInt ha, ← bigint_canon_eq_ofInt hb] at e
+
+/-- digit-level `extended_gcd` on BigInt: canonical `(g, x, y)` with `a·x + b·y = g = gcd(a, b) ≥ 0`;
+    no operator panics (in particular no division by zero), the loop terminates -/
+theorem egcdD_spec (P : Params) (hP : P.ValidMul) (a b : BigInt) (ha : a.Canon) (hb : b.Canon) :
+    ∃ g x y, GcdD.extendedGcd P a b = .ok (g, x, y) ∧ g.Canon ∧ x.Canon ∧ y.Canon ∧
+      a.val * x.val + b.val * y.val = g.val ∧ g.val = (Int.gcd a.val b.val : Int) := by
+  obtain ⟨g, x, y, e, h1, h2⟩ := egcd_spec a.val b.val
+  refine ⟨BigInt.ofInt g, BigInt.ofInt x, BigInt.ofInt y, ?_, bigint_ofInt_canon _, bigint_ofInt_canon _,
+    bigint_ofInt_canon _, ?_, ?_⟩
+  · rw [egcdD_refines P hP a b ha hb, e]; rfl
+  · simp only [bigint_ofInt_val]; exact h1
+  · simp only [bigint_ofInt_val]; exact h2
+
+/-- digit-level `extended_gcd_lcm` -/
+theorem egcd_lcmD_spec (P : Params) (hP : P.ValidMul) (a b : BigInt) (ha : a.Canon) (hb : b.Canon) :
+    ∃ g x y l, GcdD.extendedGcdLcm P a b = .ok ((g, x, y), l) ∧ g.Canon ∧ x.Canon ∧ y.Canon ∧
+      a.val * x.val + b.val * y.val = g.val ∧ g.val = (Int.gcd a.val b.val : Int) ∧
+      l = BigInt.ofInt (Int.lcm a.val b.val : Int) := by
+  obtain ⟨g, x, y, l, e, h1, h2, h3⟩ := egcd_lcm_spec a.val b.val
+  refine ⟨BigInt.ofInt g, BigInt.ofInt x, BigInt.ofInt y, BigInt.ofInt l, ?_, bigint_ofInt_canon _,
+    bigint_ofInt_canon _, bigint_ofInt_canon _, ?_, ?_, ?_⟩
+  · have r := GcdD.extendedGcdLcm_ofInt P hP a.val b.val
+    rw [← bigint_canon_eq_ofInt ha, ← bigint_canon_eq_ofInt hb] at r
+    rw [r, e]; rfl
+  · simp only [bigint_ofInt_val]; exact h1
+  · simp only [bigint_ofInt_val]; exact h2
+  · rw [h3]
+
+theorem bigint_is_multiple_ofD_spec (P : Params) (a b : BigInt) (ha : a.Canon) (hb : b.Canon) :
+    GcdD.bigintIsMultipleOf P a b = .ok (decide (b.val ∣ a.val)) := by
+  have r := GcdD.bigintIsMultipleOf_ofInt P a.val b.val
+  rw [← bigint_canon_eq_ofInt ha, ← bigint_canon_eq_ofInt hb] at r
+  rw [r, bigint_is_multiple_of_spec]
+
+/-- digit-level `BigInt::next_multiple_of` (`mod_floor`, `other - m`, `self + …` on BigInt records) -/
+theorem bigint_next_multipleD_spec (P : Params) (a b : BigInt) (ha : a.Canon) (hb : b.Canon) :
+    GcdD.bigintNextMultipleOf P a b =
+      if b.val = 0 then .error .divzero else .ok (BigInt.ofInt (a.val + Int.fmod (-a.val) b.val)) := by
+  have r := GcdD.bigintNextMultipleOf_ofInt P a.val b.val
+  rw [← bigint_canon_eq_ofInt ha, ← bigint_canon_eq_ofInt hb] at r
+  rw [r, bigint_next_multiple_spec]
+  split <;> rfl
+
+theorem bigint_prev_multipleD_spec (P : Params) (a b : BigInt) (ha : a.Canon) (hb : b.Canon) :
+    GcdD.bigintPrevMultipleOf P a b =
+      if b.val = 0 then .error .divzero else .ok (BigInt.ofInt (a.val - Int.fmod a.val b.val)) := by
+  have r := GcdD.bigintPrevMultipleOf_ofInt P a.val b.val
+  rw [← bigint_canon_eq_ofInt ha, ← bigint_canon_eq_ofInt hb] at r
+  rw [r, bigint_prev_multiple_spec]
+  split <;> rfl
+
+theorem bigint_inc_decD_spec (P : Params) (a : BigInt) (ha : a.Canon) :
+    GcdD.bigintInc P a = .ok (BigInt.ofInt (a.val + 1)) ∧ GcdD.bigintDec P a = .ok (BigInt.ofInt (a.val - 1)) := by
+  have r1 := GcdD.bigintInc_ofInt P a.val
+  have r2 := GcdD.bigintDec_ofInt P a.val
+  rw [← bigint_canon_eq_ofInt ha] at r1 r2
+  rw [r1, r2]
+  exact ⟨rfl, rfl⟩
+
+/-- instantiations at the parameters regenerated from the source on every run -/
+theorem lcmD_spec_gen (a b : List Nat) (ha : Canon a) (hb : Canon b) (hsa : GcdD.Small a) (hsb : GcdD.Small b) :
+    GcdD.lcm NB.Gen.P a b = .ok (ofNat (Nat.lcm (val a) (val b))) :=
+  lcmD_spec NB.Gen.P gen_params_valid_mul a b ha hb hsa hsb
+
+theorem egcdD_spec_gen (a b : BigInt) (ha : a.Canon) (hb : b.Canon) :
+    ∃ g x y, GcdD.extendedGcd NB.Gen.P a b = .ok (g, x, y) ∧ g.Canon ∧ x.Canon ∧ y.Canon ∧
+      a.val * x.val + b.val * y.val = g.val ∧ g.val = (Int.gcd a.val b.val : Int) :=
+  egcdD_spec NB.Gen.P gen_params_valid_mul a b ha hb
+
+/-- every operand the driver hands to the digit-level model is canonical (it normalises exactly like the
+    harness's constructors `BigUint::new` / `BigInt::from_biguint`), so the `…D_spec` theorems apply to
+    every evaluation of the driver's model column -/
+theorem drv_operand_canon_c13 (s : String) (a : List Nat) (h : NB.Drv.C13.pU s = some a) : Canon a := by
+  unfold NB.Drv.C13.pU at h
+  cases hp : NB.Wire.parseLimbs s with
+  | none => simp [hp] at h
+  | some l =>
+    simp only [hp, Option.bind_eq_bind, Option.bind_some] at h
+    split at h
+    · rename_i hall
+      simp only [Option.pure_def, Option.some.injEq] at h
+      subst h
+      exact normalize_canon (fun d hd => by simpa using List.all_eq_true.mp hall d hd)
+    · simp at h
+
+theorem drv_operand_canon_i_c13 (s : String) (x : BigInt) (h : NB.Drv.C13.pI s = some x) : x.Canon := by
+  unfold NB.Drv.C13.pI at h
+  cases hp : NB.Wire.parseBigInt s with
+  | none => simp [hp] at h
+  | some y =>
+    simp only [hp, Option.bind_eq_bind, Option.bind_some] at h
+    split at h
+    · rename_i hall
+      simp only [Option.pure_def, Option.some.injEq] at h
+      subst h
+      have hc : Canon (normalize y.mag) :=
+        normalize_canon (fun d hd => by simpa using List.all_eq_true.mp hall d hd)
+      unfold BigInt.fromBiguint
+      by_cases h1 : y.sign = .nosign
+      · simp only [h1, if_true]; exact ⟨canon_nil, by simp⟩
+      · simp only [h1, if_false]
+        by_cases h2 : normalize y.mag = []
+        · simp only [h2, if_true]; exact ⟨canon_nil, by simp⟩
+        · simp only [h2, if_false]; exact ⟨hc, by simp [h1, h2]⟩
+    · simp at h
+
+/-! ### non-vacuity of the digit-level layer: concrete evaluations at the generated parameters -/
+
+example : GcdD.Small [0, 0, 3] ∧ Canon [0, 0, 3] := by
+  unfold GcdD.Small; decide
+example : GcdD.gcd NB.Gen.P [0, 12] [0, 0, 18] = .ok [0, 12] := by decide
+example : GcdD.gcd NB.Gen.P [6, 12] [0, 9] = .ok [18] := by decide
+example : GcdD.lcm NB.Gen.P [4] [6] = .ok [12] := by decide
+example : GcdD.extendedGcd NB.Gen.P ⟨.plus, [240]⟩ ⟨.minus, [46]⟩ = .ok (⟨.plus, [2]⟩, ⟨.minus, [9]⟩, ⟨.minus, [47]⟩) := by
+  decide
+example : GcdD.bigintNextMultipleOf NB.Gen.P ⟨.plus, [23]⟩ ⟨.minus, [8]⟩ = .ok ⟨.plus, [16]⟩ := by decide
+example : GcdD.dec NB.Gen.P [] = .error .underflow := by decide
 
 end NB
